@@ -58,11 +58,12 @@ structure RateSpec (P : RatePred) : Prop where
     P (st.feed (.next v) s).1 (log ++ (st.feed (.next v) s).2.1) (E ++ [v]) true false
   /-- the unterminated subject emits an item after `unsub` -/
   skip : ∀ st log E v, P st log E false false → P st log (E ++ [v]) false false
-  /-- the terminal of the live subject arrives at a stage that is not finished -/
-  term : ∀ st log E n s, n.isTerm = true → fin [st] = false → P st log E true false →
+  /-- the terminal of the live subject arrives at the stage — finished or not: the subject hands its
+      terminal to every subscriber whose slot is full -/
+  term : ∀ st log E n s, n.isTerm = true → P st log E true false →
     P (st.feed n s).1 (log ++ (st.feed n s).2.1) E false true
-  /-- the terminal of the subject is not delivered (stage finished, or `unsub` before) -/
-  termDead : ∀ st log E a, P st log E a false → P st log E a true
+  /-- the terminal of the subject is not delivered (`unsub` before: the slot is empty) -/
+  termDead : ∀ st log E, P st log E false false → P st log E false true
   /-- `unsub` -/
   unsub : ∀ st log E a T, P st log E a T → P st.unsubbed log E false T
   /-- the stage's task body runs -/
@@ -157,18 +158,12 @@ theorem Inv.stepTerm (S : RateSpec P) (I : Inv P E false w) (st : Stage) (h : w.
   have hg : ghost (E, false) (.emit 0 n) = (E, true) := by
     cases n <;> simp_all [ghost, Notif.isTerm]
   rw [hg]
-  cases hf : fin [st] with
-  | true =>
-    rw [TW.step_emit_term_fin w st h hr I.src I.srcSubscribed ha hc n hn hf]
-    exact ⟨I.src, I.srcTask, I.subscribed, I.srcSubscribed, by simp, I.benign,
-      st, h, hr, by simpa [ha] using S.termDead _ _ _ _ hP⟩
-  | false =>
-    have hfr := st.feed_rate hr n w.sched I.benign
-    have hst : ({ w with terminated := 0 :: w.terminated, srcAlive := false } : TW).stages = [st] := h
-    rw [TW.step_emit_term w st h hr I.src I.srcSubscribed ha hc n hn hf _ hfr.1
-      (by rw [TW.push_zero _ st hst]), TW.push_zero _ st hst]
-    exact ⟨I.src, I.srcTask, I.subscribed, I.srcSubscribed, by simp, hfr.2,
-      _, rfl, hfr.1, S.term _ _ _ n w.sched hn hf hP⟩
+  have hfr := st.feed_rate hr n w.sched I.benign
+  have hst : ({ w with terminated := 0 :: w.terminated, srcAlive := false } : TW).stages = [st] := h
+  rw [TW.step_emit_term w st h hr I.src I.srcSubscribed ha hc n hn _ hfr.1
+    (by rw [TW.push_zero _ st hst]), TW.push_zero _ st hst]
+  exact ⟨I.src, I.srcTask, I.subscribed, I.srcSubscribed, by simp, hfr.2,
+    _, rfl, hfr.1, S.term _ _ _ n w.sched hn hP⟩
 
 /-- One event. -/
 theorem Inv.step (S : RateSpec P) (I : Inv P E T w) (ev : TW.Ev) :
@@ -222,10 +217,10 @@ theorem Inv.step (S : RateSpec P) (I : Inv P E T w) (ev : TW.Ev) :
               st, h, hr, by rw [ha]; simpa [ghost] using S.skip _ _ _ v hP⟩
           | error er =>
             exact ⟨I.src, I.srcTask, I.subscribed, I.srcSubscribed, by simp [ghost, TW.markTerm, Notif.isTerm],
-              I.benign, st, h, hr, by simpa [ghost, TW.markTerm, Notif.isTerm, ha] using S.termDead _ _ _ _ hP⟩
+              I.benign, st, h, hr, by simpa [ghost, TW.markTerm, Notif.isTerm, ha] using S.termDead _ _ _ hP⟩
           | complete =>
             exact ⟨I.src, I.srcTask, I.subscribed, I.srcSubscribed, by simp [ghost, TW.markTerm, Notif.isTerm],
-              I.benign, st, h, hr, by simpa [ghost, TW.markTerm, Notif.isTerm, ha] using S.termDead _ _ _ _ hP⟩
+              I.benign, st, h, hr, by simpa [ghost, TW.markTerm, Notif.isTerm, ha] using S.termDead _ _ _ hP⟩
         | true =>
           rw [ha] at hP
           cases n with
